@@ -157,5 +157,35 @@ CHECKS = {
         note="Coordinate generators themselves are decided by C07/C13; tolerance 1e-12 relative (1e-9 / 1e-6 through projection round trips).",
         technique="property-based testing (Hypothesis) with an analytic reference field (any transposition/flip/shift changes values by >= 1)",
     ),
+    "C06": dict(
+        text="Generated step lists (length 1..4 over Trend, damped Spline, KNeighbors, Linear, BlockReduce, BlockMean, nested Chain, Vector, VectorSpline2D), "
+             "scalar and 2-component data with different components, weights none/given, 1-D/2-D arrays. Reference model = the documented semantics executed "
+             "by hand (clones threaded with args = step.filter(*args)): chain prediction equals the sum of the hand-fitted clones' predictions, every step's "
+             "fitted attributes equal its clone's, prediction + last residual = data, refit equals a fresh fit; Vector component i equals the estimator "
+             "fitted alone on data[i]/weights[i]; filter returns the given coordinates/weights and data - prediction in the data's shape.",
+        design_ref="DESIGN.md 5 (C06)",
+        note="Block reductions combined with weights only where the reduction accepts them; VectorSpline2D refits are judged in C20 (documented memory).",
+        technique="property-based testing (Hypothesis) against a hand-threaded reference model of the composition",
+    ),
+    "C12": dict(
+        text="cross_val_score is compared, split by split, with fresh clones fitted by the harness on the training rows only and scored on the test rows only "
+             "with the harness' own weighted R2/MSE/RMSE/MAE formulas (component-averaged), using harness-owned fixed splits and five cross-validators; the "
+             "estimator passed in must stay untouched; delayed results computed under the synchronous scheduler, 1..8 threads and one-at-a-time in generated "
+             "orders must equal the serial scores bitwise; score() vs weighted R2 of predict(); train_test_split on value-coded rows (alignment of every "
+             "coordinate/data/weight component, complementarity, whole blocks); SplineCV scores_/selection/prediction vs independent cross-validation.",
+        design_ref="DESIGN.md 5 (C12)",
+        note="The deprecated client= dispatch is not exercised; OS-level interleavings inside dask's thread pool are sampled, not controlled.",
+        technique="property-based testing (Hypothesis): differential against independently fitted and scored models, harness-owned schedules",
+    ),
+    "C20": dict(
+        text="(1) Purity sweep over a registry of ~115 public callables/estimator methods with writable and read-only arguments: argument bytes/shape/dtype/"
+             "strides/flags identical after the call, results repeatable, read-only == writable; (2) a Hypothesis rule-based state machine generates fit/"
+             "predict/grid/clone/set_params histories over ten estimator kinds and five datasets; after every step predictions must equal, bitwise, a fresh "
+             "estimator fitted only on the latest dataset (VectorSpline2D with its documented first force locations) and region_ the latest bounding box; "
+             "(3) predict-like calls before fit raise; (4) 32 kinds of single inconsistencies broken into valid arguments must be rejected.",
+        design_ref="DESIGN.md 5 (C20)",
+        note="least_squares(copy_jacobian=False) is the documented in-place exception; equal-size weights of different shape are not an inconsistency.",
+        technique="property-based testing (Hypothesis) incl. a rule-based state machine for call histories, plus exhaustive sweeps of a callable registry",
+    ),
 }
 NOT_APPLICABLE = {}
